@@ -6,7 +6,7 @@ ID = 'C10'
 LEVEL = 'exploration'
 RULE = ('seeded scenarios with <<EOF>> rules assigned to arbitrary subsets of conditions (plus optionally an unqualified one) x seeded plans: '
         'chains of 1-5 sources (empty ones included) each delivered under a read schedule, premature end indications with data following, '
-        'yywrap policies (stop / new yyin / switch or push a new buffer), <<EOF>> action scripts (terminate, return, new file, buffer switch), '
+        'yywrap policies (stop / new yyin / switch or push a new buffer / pop back to a buffer left in mid-stream / answer 0 and let the same stream go on), scans that start on a yy_scan_bytes/yy_scan_string copy, buffers pushed from ordinary actions, <<EOF>> action scripts (terminate, return, new file, buffer switch), '
         'and yylex / new-yyin / yyrestart calls after termination; judged by the stream model: nothing delivered is left untokenised when yywrap '
         'is consulted, nothing is read between an end indication and yywrap, the EOF action is the one of the current condition, the condition '
         'survives, the new source starts at beginning of line, no byte of any source is lost; distinct = event-log hash, non-trivial = >= 2 '
